@@ -71,6 +71,7 @@ type hTask struct {
 	// called with MOD=a or MOD=b; the model treats the two parametrisations as two tasks (IDs tK-a, tK-b)
 	Param    string // "", "a", "b"
 	NoRender bool   // the second parametrisation: the Taskfile task is rendered for the first one
+	Enum     bool   // requires: LVL in ['1', '2']; every invocation that names the task passes LVL=<something> on the command line
 	IgnAll   bool   // every command of the task has ignore_error: true (a failing command does not fail the task; an interrupted one does)
 }
 
@@ -152,7 +153,13 @@ func genHProj(ch *vs.Choices, prop string) *hProj {
 		t.SrcDep = ch.Bool(1, 2)
 		t.Gen2 = t.Generates && ch.Bool(1, 3)
 		t.IgnAll = ch.Bool(1, 6)
+		t.Enum = prop == "C13" && ch.Bool(1, 3)
 		p.Tasks = append(p.Tasks, t)
+	}
+	for _, t := range p.Tasks {
+		if t.Dep >= 0 {
+			p.Tasks[t.Dep].Enum = false // (a dependency is called without command-line variables)
+		}
 	}
 	for _, t := range p.Tasks {
 		if t.Dep >= 0 && t.Inc && !p.Tasks[t.Dep].Inc {
@@ -227,6 +234,10 @@ func (p *hProj) Files() map[string]string {
 	for _, t := range p.Tasks {
 		if t.Param != "" {
 			fmt.Fprintf(&sb, "  both-%s:\n    desc: wrapper\n    deps:\n      - task: %s\n        vars: {MOD: %s}\n      - boom\n", t.ID, yqH(t.Name), t.Param)
+			continue
+		}
+		if t.Enum {
+			fmt.Fprintf(&sb, "  both-%s:\n    desc: wrapper\n    deps:\n      - task: %s\n        vars: {LVL: '1'}\n      - boom\n", t.ID, yqH(t.Name))
 			continue
 		}
 		fmt.Fprintf(&sb, "  both-%s:\n    desc: wrapper\n    deps: [%s, boom]\n", t.ID, yqH(t.Name))
@@ -317,6 +328,9 @@ func (p *hProj) renderTask(sb *strings.Builder, t *hTask) {
 	}
 	if t.Status {
 		fmt.Fprintf(sb, "    status:\n      - %s\n", yqH("test -f "+pre+"ctl/status-"+id))
+	}
+	if t.Enum {
+		sb.WriteString("    requires:\n      vars:\n        - name: LVL\n          enum: ['1', '2']\n")
 	}
 	if t.Pre {
 		fmt.Fprintf(sb, "    preconditions:\n      - sh: %s\n        msg: precondition of %s refused\n", yqH("test ! -f "+pre+"ctl/pre-"+id), id)
@@ -509,6 +523,7 @@ type hStep struct {
 	Fail   int // for op:fail
 	CrashN int
 	Adv    time.Duration
+	Lvl    string // value of LVL for tasks with an enum requirement
 }
 
 func genHistory(ch *vs.Choices, p *hProj, prop, tier string) []hStep {
@@ -547,6 +562,7 @@ func genHistory(ch *vs.Choices, p *hProj, prop, tier string) []hStep {
 			queue = []hStep{{Kind: meet, Task: s.Task}, {Kind: "op:clearfail", Task: s.Task}, {Kind: "run-yes", Task: s.Task}}
 		}
 		prevTask = s.Task
+		s.Lvl = []string{"1", "2", "1", "2", "3", "true", "02", "x"}[ch.Draw(8)]
 		switch s.Kind {
 		case "op:edit", "op:append", "op:touch", "op:remove", "op:rename":
 			s.File = hInitialFiles[ch.Draw(len(hInitialFiles)-1)]
@@ -593,6 +609,9 @@ func (s hStep) argv(p *hProj, dir string) []string {
 	a := s.argv0(p, dir)
 	if t := p.Tasks[s.Task]; t.Param != "" && s.Kind != "both" && !strings.HasPrefix(s.Kind, "list") {
 		a = append(a, "MOD="+t.Param)
+	}
+	if t := p.Tasks[s.Task]; t.Enum && s.Kind != "both" && !strings.HasPrefix(s.Kind, "list") {
+		a = append(a, "LVL="+s.Lvl)
 	}
 	return a
 }
@@ -1156,6 +1175,18 @@ func runHOne(t *testing.T, ch *vs.Choices, prop string, render bool, p *hProj, h
 				// normal invocations
 				wrapper := s.Kind == "both"
 				reached := true
+				if tk.Enum && !wrapper && s.Lvl != "1" && s.Lvl != "2" {
+					// the value given on the command line is outside the enum: the requirement is checked before the
+					// task's dependencies start, so nothing of the chain runs and the invocation ends with 207
+					out.Hit("fault:enum_violated")
+					if len(delta) > 0 {
+						violate("C13", "guard_ignored|enum|command_line_value", "%s: LVL=%s is not in the enum of task %s but commands ran: %v", desc, s.Lvl, tk.Name, delta)
+					} else if inv.exit != 207 && !crashed {
+						violate("C13", "guard_exit_status|enum|command_line_value", "%s: LVL=%s is not in the enum of task %s, exit %d, want 207", desc, s.Lvl, tk.Name, inv.exit)
+					}
+					restamp(dir, now())
+					continue
+				}
 				for _, ti := range chain {
 					x := p.Tasks[ti]
 					e := exps[ti]
